@@ -4,6 +4,7 @@ in_description_frame) or a stack-growth point (ensure_sufficient_stack -> stacke
 Call graph over resolved callees; unresolved trait-method calls fan out to every workspace impl; a closure handed
 directly to a function is invoked by that function (so a closure given to in_frame is only reachable through it).
 Guard functions are removed from the graph; any remaining non-trivial SCC is an unguarded recursion."""
+import re
 import sys
 
 import os
@@ -270,11 +271,34 @@ def run_views(prog):
                         continue
                     ok_here = any(h.path == x or h.path.startswith(x + "::") for x in guarded)
                     per_type.setdefault(f.self_ty, []).append((m, c.rsplit("::", 1)[1], ok_here, f, t["line"]))
+    from . import arith
+    agg, _mut = arith._agg_sites(prog)
+
+    def built_by_interpreter(ty):
+        """is the view type constructed by anything outside the array module's own API (directly or through its constructors)?  A
+        view nothing builds cannot be nested by a program"""
+        seen, work = set(), [g.path for g, b, st in agg.get(ty, [])]
+        if not work:
+            return True           # construction not visible (generic / macro): assume used
+        while work:
+            q = work.pop()
+            if q in seen:
+                continue
+            seen.add(q)
+            root = prog.fns[q].root if q in prog.fns and prog.fns[q].kind == "Closure" and prog.fns[q].root else q
+            if not re.match(r"<?jrsonnet_evaluator::arr::", root):
+                return True
+            for cf, b, t in prog.callers.get(root, []):
+                work.append(cf.path)
+        return False
     for ty, calls in sorted(per_type.items()):
         key = "view:%s" % short_path(ty)
         bad_calls = [c for c in calls if not c[2]]
         f = calls[0][3]
-        if not bad_calls:
+        if bad_calls and not built_by_interpreter(ty):
+            obs.append(info(RULE2, key, site(f), "%s forwards accessors without a frame check, but nothing outside the array module constructs it: "
+                            "no program can nest it" % short_path(ty)))
+        elif not bad_calls:
             obs.append(ok(RULE2, key, site(f), "%d forwarding accessor call(s), all behind a frame check" % len(calls)))
         else:
             obs.append(bad(RULE2, key, site(bad_calls[0][3], bad_calls[0][4]),
